@@ -6,7 +6,7 @@
 # on /repo (must be clean). The worktree and its build output are removed afterwards.
 #   usage: scripts/seeded_sweep.sh [-j N] [id ...]       results: /verif/seeded/results.txt
 set -u
-VERIF=/verif; REPO=/repo; SCRATCH=${SCRATCH:-/root/scratch/seedsweep}
+VERIF=$(cd "$(dirname "$0")/.." && pwd); REPO=/repo; SCRATCH=${SCRATCH:-/root/scratch/seedsweep}
 JOBS=4
 while getopts "j:" o; do case $o in j) JOBS=$OPTARG;; esac; done; shift $((OPTIND-1))
 mkdir -p "$SCRATCH"
